@@ -39,6 +39,7 @@ MODULES = {
     "log": "src/log.rs",
     "execlookup": "src/execlookup.rs",
     "stm": "src/stm.rs",
+    "havok_reader": "src/havok/binary_tag_file_reader.rs",
 }
 
 
@@ -387,7 +388,7 @@ for n, t in (("empty_comment", "thorough"), ("ascii_comment", "thorough"), ("non
     H("C09", "chardat", "c09_checksum_" + n, tier=t, unwind=200, timeout=600, bounds="all 24 byte-valued appearance fields, all timestamps (symbolic); race/tribe/gender and comment text concrete (" + n + ")",
       encodes=["chardat::CharacterData::calc_checksum", "chardat::CustomizeData (BinWrite)", "common_file_operations::write_string"], stubs=_MC, cbmc_args=FS256)
 for n in ("ascii", "empty"):
-    H("C09", "chardat", "c09_written_layout_" + n, tier="quick" if n == "ascii" else "thorough", unwind=200, timeout=600, bounds="all appearance field values / version / timestamp (symbolic); tags and comment concrete (" + n + ")",
+    H("C09", "chardat", "c09_written_layout_" + n, tier="thorough", unwind=200, timeout=600, bounds="all appearance field values / version / timestamp (symbolic); tags and comment concrete (" + n + ")",
       encodes=["chardat::CharacterData (BinWrite)", "chardat::CharacterData::calc_checksum"], stubs=_MC, cbmc_args=FS256)
 H("C09", "chardat", "c09_parse_field_positions", tier="thorough", unwind=200, timeout=900, bounds="212-byte file, all appearance bytes / version / timestamp / stored checksum symbolic; tags and comment concrete",
   encodes=["chardat::CharacterData::from_existing"], cbmc_args=FS256)
@@ -420,7 +421,7 @@ H("C16", "pbd", "c16p_pipeline_witness", expect="witness-fail", unwind=8, bounds
 H("C16", "cmp", "c16_scaling_row_exact", unwind=6, timeout=300, bounds="all 56-byte rows", encodes=["cmp::RacialScalingParameters (binrw)"])
 H("C16", "cmp", "c16c_pipeline_witness", expect="witness-fail", unwind=6, bounds="assert(false) twin")
 _FMT = ["alloc::fmt::format -> returns an empty String (file-name formatting is not the subject)"]
-H("C16", "tera", "c16_terrain_plate_positions", tier="thorough", unwind=6, timeout=900, bounds="2 plates: all i16 coordinates, all plate sizes <= 4096", encodes=["tera::Terrain::from_existing", "tera::TerrainHeader (binrw)"],
+H("C16", "tera", "c16_terrain_plate_positions", tier="quick", unwind=6, timeout=900, bounds="2 plates: all i16 coordinates, all plate sizes <= 4096", encodes=["tera::Terrain::from_existing", "tera::TerrainHeader (binrw)"],
   stubs=_FMT, cbmc_args=FS256)
 H("C16", "tera", "c16_terrain_write_grid_coordinates", unwind=6, timeout=600, bounds="1 plate on the 128-unit grid: all i16 x, y", encodes=["tera::Terrain::write_to_buffer"], cbmc_args=FS256)
 H("C16", "tera", "c16t_pipeline_witness", expect="witness-fail", unwind=6, bounds="assert(false) twin")
@@ -538,7 +539,7 @@ H("C15", "equipment", "c15_skeleton_path_all", unwind=100, timeout=600, bounds="
 H("C15", "equipment", "c15_material_paths_all", unwind=100, timeout=600, bounds="six material path builders, all codes 0..9999 x 0..9999, concrete material name: exact path text",
   encodes=["equipment::build_gear_material_path", "build_skin_material_path", "build_face_material_path", "build_hair_material_path", "build_ear_material_path", "build_tail_material_path"],
   stubs=FMT, cbmc_args=FS256)
-H("C05", "exd", "c05_page_filename_all_ids", unwind=100, timeout=900, bounds="all 2^32 page start ids x all 8 languages (symbolic), concrete sheet name: exact file name text",
+H("C05", "exd", "c05_page_filename_ids_below_100000", unwind=100, timeout=900, bounds="all page start ids 0..99999 x all 8 languages (symbolic), concrete sheet name: exact file name text",
   encodes=["exd::EXD::calculate_filename", "common::get_language_code"], stubs=FMT, cbmc_args=FS256)
 H("C05", "exd", "c05_page_filename_wide_ids", unwind=100, timeout=900, bounds="start ids 4294967295, 1000000000, 123456789 (concrete) x all 8 languages (symbolic)",
   encodes=["exd::EXD::calculate_filename", "common::get_language_code"], stubs=FMT, cbmc_args=FS256)
@@ -557,8 +558,52 @@ H("C02", "sqpack_data", "c02_texture_file_two_mips", unwind=24, timeout=900, bou
   encodes=["sqpack::data::SqPackData::read_texture_file", "sqpack::read_data_block"], stubs=_MF, cbmc_args=FS1K)
 
 # C06: whole-file parse of a generated minimal model (possible since the binrw counted-vector model)
-H("C06", "model", "c06_from_existing_minimal_model", tier="quick", unwind=80, timeout=2400,
+H("C06", "model", "c06_from_existing_minimal_model", tier="thorough", unwind=80, timeout=2400,
   bounds="minimal v5 model: 1 LOD, 1 mesh, declaration {Position Single3, UV Single4 (stream 0); UV Half2, Color ByteFloat4 (stream 1)}, 2 vertices, 3 indices, 1 sub-mesh, 1 material name; all 78 vertex / index buffer bytes symbolic",
   encodes=["model::MDL::from_existing", "model::ModelData (binrw)", "model_vertex_declarations::vertex_element_parser", "model_file_operations readers"],
   stubs=_HALFSTUB, cbmc_args=FS1K, kani_args=["--no-assertion-reach-checks"],
   no_cover="harness without any kani::assume (both vertices and all stream bytes are enumerated); cover!/reachability checks dropped because trace generation on the 3.6 M-variable formula ran out of memory")
+
+# ================================================================================================
+# session 2 additions
+# ================================================================================================
+_MFS = ["std::fs (File, OpenOptions) of src/patch.rs -> in-memory file model (support/memfs.rs: sparse-file write semantics, "
+        "shared cursor, whole-buffer write_all)", "tracing debug!/warn! -> empty macros"]
+for n in ("at0_1block", "at2_2blocks", "at3_3blocks_grows_file", "behind_end_leaves_gap"):
+    H("C03", "patch", "c03_empty_block_" + n, tier="quick" if n in ("at2_2blocks", "at3_3blocks_grows_file") else "thorough", unwind=70, timeout=600,
+      bounds="delete / expand kernel, offset and block count concrete (" + n + "), 512 previous file bytes symbolic: header + zero fill in place, nothing else changes",
+      encodes=["patch::write_empty_file_block_at", "patch::wipe_from_offset", "patch::wipe"], stubs=_MFS)
+for n in ("inside_file", "nothing", "across_end"):
+    H("C03", "patch", "c03_wipe_" + n, tier="quick" if n == "across_end" else "thorough", unwind=70, timeout=600,
+      bounds="zero-fill kernel, position and length concrete (" + n + "), 300 previous file bytes symbolic", encodes=["patch::wipe"], stubs=_MFS)
+
+# C07: MDL::write_to_buffer on a directly constructed minimal version-5 model (thorough: 15-17 min each, symbolic execution dominated)
+_WB = ["model::MDL::write_to_buffer", "model::ModelFileHeader (BinWrite)", "model::ModelData (BinWrite)", "model_vertex_declarations::vertex_element_writer",
+       "model_file_operations writers"]
+H("C07", "model", "c07_write_to_buffer_mapping_single", tier="thorough", unwind=140, timeout=2400, cbmc_args=FS1K, kani_args=["--no-assertion-reach-checks"],
+  bounds="1 LOD / 1 mesh / 2 vertices / 3 indices, declaration {Position, Normal Single3; UV Single4; BlendWeights, Color ByteFloat4; BlendIndices Byte4; BiTangent}: "
+         "raw-copied attributes, indices, bounding boxes, header scalars symbolic; coded attributes concrete and pairwise distinct; every section and element at its byte position",
+  encodes=_WB)
+H("C07", "model", "c07_write_to_buffer_elements_single", tier="thorough", unwind=140, timeout=2400, cbmc_args=FS1K, kani_args=["--no-assertion-reach-checks"],
+  bounds="same shape, every attribute value symbolic (coded attributes compared with the codec applied to the expected attribute)", encodes=_WB)
+H("C07", "model", "c07_write_to_buffer_elements_half", tier="thorough", unwind=140, timeout=2400, cbmc_args=FS1K, kani_args=["--no-assertion-reach-checks"],
+  bounds="declaration {Position, Normal, UV Half4}, 2 vertices, all attribute values symbolic", encodes=_WB, stubs=_HALFSTUB)
+
+# C14: whole-file parse of a generated minimal shader package
+H("C14", "shpk", "c14_shader_package_from_existing", tier="quick", unwind=20, timeout=1200, cbmc_args=FS1K,
+  bounds="268-byte package: 0 shaders / resource parameters, 1 material parameter, 1 system + 1 material key, 3 nodes x 1 pass, 1 alias (counts concrete); every id, key, "
+         "selector, pass field and the alias target (0..3, 3 = missing node) symbolic; symbolic query selector",
+  encodes=["shpk::ShaderPackage::from_existing", "shpk::ShaderPackage (BinRead)", "shpk::Node (BinRead)", "shpk::ShaderPackage::find_node"],
+  stubs=["core::str::validations::run_utf8_validation -> ASCII-only model"])
+
+# C16: layer string heap, Havok bit-level decoders, terrain parse (decided since the binrw error-diagnostics model)
+for n in ("with_spaces", "leading_space_and_punctuation", "empty"):
+    H("C16", "layer", "c16_layer_heap_string_" + n, tier="quick" if n != "empty" else "thorough", unwind=16, timeout=600,
+      bounds="heap string (" + n + "): concrete text, all surrounding bytes and the reader position symbolic", encodes=["layer::StringHeap::read_string"])
+H("C16", "layer", "c16l_pipeline_witness", expect="witness-fail", unwind=16, bounds="assert(false) twin")
+for n in (0, 7, 8, 9, 16):
+    H("C16", "havok_reader", "c16_havok_bit_field_count%d" % n, tier="quick" if n in (8, 9) else "thorough", unwind=20, timeout=300,
+      bounds="presence bit field of %d members, all data bytes symbolic" % n, encodes=["havok::binary_tag_file_reader::HavokBinaryTagFileReader::read_bit_field", "havok::byte_reader::ByteReader"])
+H("C16", "havok_reader", "c16_havok_packed_int", unwind=8, timeout=300, bounds="all packed-integer encodings of 1..4 bytes",
+  encodes=["havok::binary_tag_file_reader::HavokBinaryTagFileReader::read_packed_int"])
+H("C16", "havok_reader", "c16h_pipeline_witness", expect="witness-fail", unwind=8, bounds="assert(false) twin")
